@@ -111,13 +111,13 @@ def main():
         },
         "engines": [
             {"name": "pgcheck", "path": "/verif/harness", "serves_properties": sorted(CLAIMED),
-             "kind_free_text": "Rust binary: sharded, seeded proptest campaigns (TestRunner, RngSeed::Fixed from VERIF_SEED) over generated operation histories / graphs with reference-model, brute-force, differential and round-trip oracles; shrinking to replay files; known-findings protocol"},
+             "kind_free_text": "Rust binary: sharded, seeded proptest campaigns (TestRunner, RngSeed::Fixed from VERIF_SEED) over generated operation histories / graphs with reference-model, brute-force, differential and round-trip oracles; bounded-exhaustive enumeration of small scopes; a total structural byte codec that turns libFuzzer inputs (cargo-fuzz targets under /verif/fuzz, thorough tier) and generated byte strings into the same case types; shrinking to replay files; hang handling (exit 2); known-findings protocol (/verif/known_findings.json)"},
         ],
         "checks": checks,
         "notes": "Exit codes: 0 held (KNOWN-FINDING lines possible), 1 VIOLATION, 2 inconclusive. New failing cases are written to /verif/failures/<id>/ (untracked); pinned reproductions live in /verif/regress/<id>/ and are replayed first on every run. known_findings.json is never written at run time.",
     }
-    if na:
-        m["not_applicable"] = na
+    # always present: empty = every listed property is claimed (the technique applies to all twenty)
+    m["not_applicable"] = na
     json.dump(m, open(os.path.join(V, "MANIFEST.json"), "w"), indent=1)
     print("claimed:", len(checks), "not claimed:", len(na))
 
